@@ -29,6 +29,11 @@ func genC06Program(r *eng.Rng, th bool) *eng.Program {
 	if r.Chance(1, 3) {
 		gp.WideKeys = 150 + r.Intn(300) // several pages of compaction output => several buffered writes
 	}
+	if r.Chance(1, 3) {
+		eng.PartialCompactionProfile(r, &cfg, &gp)
+		gp.FirstWide = 200 + r.Intn(300)
+		gp.MaxBatches = 8
+	}
 	p := eng.GenProgram(r, "C06", cfg, gp)
 	var steps []eng.Step
 	for _, s := range p.Steps {
